@@ -1,7 +1,7 @@
 """R-FLOW / R-ORDER obligations on the write pipeline: offsets, sizes, buffer-size maxima, header arguments."""
 from __future__ import annotations
 import re
-from ..astq import Node, up, strip, strip_cast, walk_no_nested_fn, calls, dominates, stmt_of, binding_before, precedes_toplevel
+from ..astq import resolves_to, Node, up, strip, strip_cast, walk_no_nested_fn, calls, dominates, stmt_of, binding_before, precedes_toplevel
 from ..rules.layout import origin, origin_short, emissions, flat_emits
 from .wlayout import W, WW, BW, slot_params, split_structure, recv_is_param0
 
@@ -69,7 +69,7 @@ def ob_write_data(ctx, res):
         res.fail("writeData/offset-order", upd[0], "Section.offset must be the offset BEFORE it is advanced by this section's size")
         return
     snd = list(calls(lp["body"], method="send"))
-    if len(snd) != 1 or origin(fn, snd[0]["recv"]) != "p1" or strip(snd[0]["args"][0]) is not lits[0]:
+    if len(snd) != 1 or origin(fn, snd[0]["recv"]) != "p1" or not resolves_to(fn, snd[0]["args"][0], lits[0]):
         res.fail("writeData/send", lp, "the Section record must be sent on the section channel (2nd parameter)")
         return
     if not dominates(wa[0], snd[0]):
@@ -422,14 +422,26 @@ def ob_vals_returns(ctx, res):
             res.ok(fn, "%s returns (file, max buffer size, ..)" % wn)
 
 
+_MAX_OTHER = {}
+
+
 def _max_vars(fn):
     out = {}
     for n in walk_no_nested_fn(fn.body):
         if n.k == "assign":
             l = up(strip(n["l"]))
             r = strip(n["r"])
-            if r.k == "mcall" and r["method"] == "max" and up(strip(r["recv"])) == l and len(r["args"]) == 1:
-                out.setdefault(l, []).append(n)
+            # `m = m.max(x)` / `m = x.max(m)` / `m = max(m, x)`: rewritten in place so that callers can keep reading (recv = m, args = [x])
+            ops = None
+            if r.k == "mcall" and r["method"] == "max" and len(r["args"]) == 1:
+                ops = [r["recv"], r["args"][0]]
+            elif r.k == "call" and up(r["func"]).split("::")[-1] == "max" and len(r["args"]) == 2:
+                ops = list(r["args"])
+            if ops is not None and l in [up(strip(x)) for x in ops]:
+                other = [x for x in ops if up(strip(x)) != l]
+                if len(other) == 1:
+                    _MAX_OTHER[id(n)] = other[0]
+                    out.setdefault(l, []).append(n)
     return out
 
 
@@ -447,7 +459,7 @@ def ob_bufsize_flows(ctx, res):
         good = True
         for var, assigns in mv.items():
             for a in assigns:
-                arg = strip(a["r"]["args"][0])
+                arg = strip(_MAX_OTHER[id(a)])
                 o = origin_short(fn, arg)
                 if not (re.search(r"#1$", o) or re.search(r"\.2$", o) or re.search(r"#2$", o)):
                     res.fail("bufsize/%s/source" % name, a, "`%s` accumulates `%s` (origin %s): must be the size component of a data-write / encode result" % (var, up(arg), o))
